@@ -37,6 +37,14 @@ for d in sorted(glob.glob(os.path.join(V, 'seeded', '*'))):
             detail = {'script_tail': r.get('script', [])[-6:], 'diff': r.get('diff')}
         except Exception:
             pass
+    kinds = []
+    for l in vl:
+        try:
+            r_ = json.load(open(l.split('replay=')[1].split()[0]))
+            kinds.append({'kind': r_.get('kind') or ('differential' if r_.get('diff') else 'obligation'), 'broken_obligations': bool(r_.get('proof_errors') or r_.get('tie_errors'))})
+        except Exception:
+            kinds.append(None)
+    meta['caught_by_kinds'] = kinds
     meta['caught_by'] = {'check': prop, 'tier': 'quick', 'seed': int(os.environ.get('VERIF_SEED', '1')), 'result': res, 'exit': p.returncode, 'example': detail}
     json.dump(meta, open(mp, 'w'), indent=1)
     print(sid, res, flush=True)
